@@ -1,11 +1,41 @@
-//! Structural witness classes referenced by /verif/known_findings.json.
+//! Structural witness classes referenced by /verif/known_findings.json: a listed finding
+//! only matches violations whose witness has the structure described there, so a different
+//! violation of the same clause is still reported.
 
 use crate::driver::*;
 use crate::model::*;
 use crate::world::*;
 
-pub fn holds(name: &str, _sc: &Scenario, _pre: &World, _out: &EvalOut, _vio: &Violation) -> bool {
+pub fn holds(name: &str, _sc: &Scenario, _pre: &World, out: &EvalOut, _vio: &Violation) -> bool {
     match name {
+        // the renamed-upstream lookup (try_finding_renamed_multi_output_job) has to choose
+        // between records stored under at least two different old names of the same upstream
+        "renamed-lookup-several-old-names" => {
+            let gv = &out.gv;
+            for (j, job) in gv.jobs.iter().enumerate() {
+                for (u, _) in job.ups.iter() {
+                    let up = &gv.jobs[*u];
+                    if out.h_in.contains_key(&format!("{}!!!{}", up.id, job.id)) {
+                        continue;
+                    }
+                    let suffix = format!("!!!{}", job.id);
+                    let mut candidates = 0;
+                    for k in out.h_in.keys() {
+                        if k.ends_with(&suffix) && k.len() > suffix.len() {
+                            let x = &k[..k.len() - suffix.len()];
+                            if x.split(ID_SEP).any(|p| up.parts.iter().any(|q| q == p)) {
+                                candidates += 1;
+                            }
+                        }
+                    }
+                    if candidates >= 2 {
+                        return true;
+                    }
+                }
+                let _ = j;
+            }
+            false
+        }
         _ => false,
     }
 }
